@@ -654,6 +654,74 @@ example : callH ⟨1, true, true⟩ true (tableAfter [.register t!"m" 1, .regist
 example : lastReg [RegOp.register t!"m" 3, .unregister t!"m", .register t!"m" 1] t!"m" = some 3 := rfl
 example : tableAfter [.register t!"m" 1, .unregister t!"m"] = [] := rfl
 
+/-! ## notifications the sender refuses (unencodable: NaN progress, chan / func values, failing MarshalJSON)
+
+  The sender marshals before it writes (`C10_fact_marshal_before_write`), so a refused attempt leaves no trace on the
+  stream: the call is the call of the remaining emits. -/
+
+/-- what is sent is what was attempted minus the refused attempts: same order, each once (a sublist) -/
+theorem C10_sent_sublist (as : List Attempt) : ((sent as).map Attempt.enc).Sublist as := by
+  induction as with
+  | nil => exact List.Sublist.slnil
+  | cons x rest ih =>
+    cases x with
+    | enc e => exact ih.cons_cons _
+    | refused => exact ih.cons _
+
+/-- every encodable attempt is sent, nothing else is -/
+theorem C10_sent_mem (as : List Attempt) (e : Emit) : e ∈ sent as ↔ Attempt.enc e ∈ as := by
+  induction as with
+  | nil => simp [sent]
+  | cons x rest ih =>
+    cases x with
+    | enc e' => simp [sent, ih]
+    | refused => simp [sent, ih]
+
+/-- refusing in between is neutral: attempts before and after a refused one are sent as if it had not been tried -/
+theorem C10_sent_append (as bs : List Attempt) : sent (as ++ bs) = sent as ++ sent bs := by
+  induction as with
+  | nil => rfl
+  | cons x rest ih => cases x <;> simp [sent, ih]
+
+/-- **refused notifications do no harm**: whatever unencodable notifications the handler tries to send, at whatever
+    positions, the call is: one handler invocation per ENCODABLE emitted notification whose method has a handler, in
+    emission order, each once, then the single return of the handler's unchanged answer -/
+theorem C10_refused_harmless (f : Facts) (hsync : f.syncDispatch = true) (hs : List Text) (reqId : Nat) (as : List Attempt) (a : Answer) :
+    callA f true hs reqId as a
+      = (((sent as).map Emit.notif).filter (fun n => hs.contains n.method)).map (fun n => Ev.handled (delivered n))
+        ++ [.ret (answerRaw reqId a)] :=
+  C10_order_once f hsync hs reqId (sent as) a
+
+/-- the result is intact in both response modes, whatever was refused before it -/
+theorem C10_refused_result_intact (f : Facts) (hsync : f.syncDispatch = true) (sse : Bool) (hs : List Text) (reqId : Nat)
+    (as : List Attempt) (a : Answer) (r : Json) :
+    Ev.ret r ∈ callA f sse hs reqId as a ↔ r = answerRaw reqId a :=
+  C10_result_intact f hsync sse hs reqId (sent as) a r
+
+/-- the stream carries one frame per encodable attempt and the answer -/
+theorem C10_refused_frame_count (reqId : Nat) (as : List Attempt) (a : Answer) :
+    (framesA reqId as a).length = (sent as).length + 1 := by
+  simp [framesA, serverFrames]
+
+/-- only refused attempts: the call is just the return -/
+theorem C10_only_refused (f : Facts) (sse : Bool) (hs : List Text) (reqId : Nat) (n : Nat) (a : Answer) :
+    callA f sse hs reqId (List.replicate n .refused) a = call f sse hs reqId [] a := by
+  have h : sent (List.replicate n Attempt.refused) = [] := by
+    induction n with
+    | zero => rfl
+    | succ k ih => simpa [List.replicate_succ, sent] using ih
+  simp [callA, h]
+
+/-- valid, refused, refused, valid: the two valid ones are handled in order, then the answer -/
+example : callA ⟨1, true, true⟩ true [t!"m", messageMethod] 7
+      [.enc (.custom t!"m" [(t!"a", .int 1)]), .refused, .refused, .enc (.log t!"info" t!"hi")] (.ok (.str t!"done"))
+    = [ .handled ⟨t!"m", ⟨[], [(t!"a", .int 1)]⟩⟩,
+        .handled ⟨messageMethod, ⟨[], [(t!"level", .str t!"info"),
+          (t!"data", .obj [(t!"type", .str t!"log_message"), (t!"message", .str t!"hi")])]⟩⟩,
+        .ret (.str t!"done") ] := rfl
+
+example : (framesA 7 [.refused, .enc (.custom t!"m" []), .refused] (.ok .null)).length = 2 := rfl
+
 /-! ## instance obligations over the regenerated facts -/
 
 /-- the sender and the responder of one POST-SSE stream draw event ids from ONE counter -/
@@ -667,6 +735,10 @@ theorem C10_fact_drain_with_handlers : facts.drainWithHandlers = true := by deci
 
 /-- the event id is `evt-<ms>-<counter>`, the counter an atomic increment of a field of the writer -/
 theorem C10_fact_id_shape : Mcp.Gen.icIdIsMsCounter = true ∧ Mcp.Gen.icResponderOwnsWriter = true := by decide
+
+/-- the sender marshals the whole notification before it takes an event id or writes to the stream: an unencodable
+    notification is refused without a trace (the region in which `sent` is the stream's content) -/
+theorem C10_fact_marshal_before_write : Mcp.Gen.icMarshalBeforeWrite = true := by decide
 
 /-! ## non-vacuity -/
 
